@@ -636,6 +636,8 @@ def rule_body_exact(ck):
 
 
 def run(ck):
+    from ..x_resolve import install_prepared
+    install_prepared(ck, __file__)
     ck.rule("C27.sint", "SINT: every int() on Range header text has an ASCII-digits guard (regex inclusion in [0-9]+) and a handled ValueError / length bound")
     ck.rule("C27.invalid-ignored", "a Range header that is not 'bytes=<valid ints>' yields None from the parser and is never unpacked by get()")
     ck.rule("C27.head", "HEAD = GET without body: head() delegates to get(include_body=False); no status/header call depends on include_body")
